@@ -49,7 +49,12 @@ def gen(ctx):
             v = [0xe9] * bad + [0x61] * (n - bad)
             rng.shuffle(v); vals.append(bytes(v))
             vals.append(("é" * bad + "a" * (n - 2 * bad)).encode() if n - 2 * bad >= 0 else b"")
-    words = [b"hello", b"caf\xc3\xa9", b" ", b"  ", b"\t", b"\r\n", b"\n", b"\r", b"=", b"=3D", b".", b"\xff", b"\0", b"x" * 80, b"\xf0\x9f\x98\x80"]
+    # lines that a careless post-processing of the encoded text would touch: "From " / ">From " / "." / "--" at the start of a line,
+    # at every length around the 76-column limit, with a character that forces quoted-printable
+    for k in range(60, 82):
+        vals += [b"From " + b"x" * k + b" \xc3\xa9", b"a\r\nFrom " + b"y" * k + b"\xc3\xa9\r\n", b"x" * k + b"From the desk of nobody \xc3\xa9 " + b"z" * 90,
+                 b">From " + b"x" * k + b"\xc3\xa9", b"." + b"x" * k + b"\xc3\xa9", b"--" + b"x" * k + b"\xc3\xa9"]
+    words = [b"From ", b">From ", b"--", b"hello", b"caf\xc3\xa9", b" ", b"  ", b"\t", b"\r\n", b"\n", b"\r", b"=", b"=3D", b".", b"\xff", b"\0", b"x" * 80, b"\xf0\x9f\x98\x80"]
     for _ in range(400 if ctx.tier == "quick" else 8000):
         vals.append(b"".join(rng.choice(words) for _ in range(rng.randint(0, 60))))
     vals.append(bytes(rng.randrange(256) for _ in range(1 << 16)))
@@ -123,6 +128,44 @@ def run(ctx):
     for (k, _), d in zip(ok_lines, run_model([l for _, l in ok_lines])):
         if d != "1":
             bad.append((k, "emitted octets break the rules of the declared encoding (line length / ASCII / bare CR LF / trailing blank)"))
+    # the same through the builders: message body and single part, with and without a Content-Transfer-Encoding set on the builder first,
+    # for strings, vectors and pre-encoded Body values: the field that is emitted must be the encoding the octets are in
+    pvals = [b"", b"Hello, world!\r\n", b"plain ascii line\nwith lone lf", "Café au lait\r\n".encode(), b"\xff\xfe binary \0", b"=equals= and trailing blank \r\n", b"x" * 1200]
+    pl, pmeta = [], []
+    for tgt in ("msg", "part"):
+        for preset in ["-"] + ENCS:
+            for v in pvals:
+                for kind in ["str", "vec"] + ["body:" + e for e in ENCS]:
+                    if kind == "str" and not is_utf8(v):
+                        continue
+                    pl.append("body.part\t%s\t%s\t%s\t%s" % (tgt, preset, kind, hx(v))); pmeta.append((tgt, preset, kind, v))
+    pres = run_impl(pl)
+    ctx.count(len(pl))
+    pbad, pdec, pidx = [], [], []
+    for (tgt, preset, kind, v), r in zip(pmeta, pres):
+        if not r.startswith("ok\t"):
+            continue                      # the builder refused (an encoding that cannot carry the content) or the Body could not be made
+        msg = unhx(r.split("\t")[1])
+        head, _, body = msg.partition(b"\r\n\r\n")
+        ctes = [l.split(b":", 1)[1].strip().decode("latin-1") for l in head.split(b"\r\n") if l.lower().startswith(b"content-transfer-encoding:")]
+        if len(ctes) != 1:
+            pbad.append((tgt, preset, kind, v, "%d Content-Transfer-Encoding fields" % len(ctes))); continue
+        if tgt == "part":
+            body = body[:-2] if body.endswith(b"\r\n") else body
+        content = crlf_py(v) if kind == "str" else v
+        if ctes[0] in ("7bit", "8bit", "binary"):
+            if body != content:
+                pbad.append((tgt, preset, kind, v, "field says %s but the octets are not the content" % ctes[0]))
+        elif ctes[0] == "quoted-printable":
+            pdec.append("spec.qp_decode\t" + hx(body)); pidx.append((tgt, preset, kind, v, content, ctes[0]))
+        elif ctes[0] == "base64":
+            pdec.append("spec.b64_body_decode\t" + hx(body)); pidx.append((tgt, preset, kind, v, content, ctes[0]))
+        else:
+            pbad.append((tgt, preset, kind, v, "unknown Content-Transfer-Encoding %r" % ctes[0]))
+    for (tgt, preset, kind, v, content, cte), d in zip(pidx, run_model(pdec)):
+        if d != "some\t" + hx(content):
+            pbad.append((tgt, preset, kind, v, "decoding the body per the emitted field (%s) does not give the content back" % cte))
+    ctx.cov.setdefault("oracle", {})
     # crlf conversion alone
     cl = [v for v in vals[:n_exh] if is_utf8(v)]
     ci, cm, cs = run_impl(["body.with_enc\t1\tbinary\t" + hx(v) for v in cl]), run_model(["body.crlf\t" + hx(v) for v in cl]), run_model(["spec.crlf\t" + hx(v) for v in cl])
@@ -145,6 +188,10 @@ def run(ctx):
         ctx.violation({"kind": "oracle", "entry": "Body::new" if e is None else "Body::new_with_encoding(%s)" % e, "input": "String" if st else "Vec<u8>", "content_hex": hx(v)[:4000], "impl": impl[k][:600], "what": why, "failures": len(bad)})
     if cbad:
         ctx.violation({"kind": "oracle", "entry": "CRLF conversion of String bodies", "content_hex": hx(cbad[0])})
+    ctx.cov["oracle"]["builders_emit_the_encoding_the_octets_are_in"] = {"cases": len(pl), "built": sum(1 for r in pres if r.startswith("ok\t")), "failures": len(pbad)}
+    if pbad:
+        tgt, preset, kind, v, why = pbad[0]
+        ctx.violation({"kind": "oracle", "entry": "%s builder .body(%s) with Content-Transfer-Encoding %s set first" % ("Message" if tgt == "msg" else "SinglePart", kind, preset), "line": "body.part\t%s\t%s\t%s\t%s" % (tgt, preset, kind, hx(v)), "what": why, "failures": len(pbad)})
     if diffs and not ctx.violations:
         k = min(diffs, key=lambda t: len(meta[t][0]))
         ctx.violation({"kind": "correspondence", "line": lines[k][:4000], "impl": impl[k][:600], "model": model[k][:600], "disagreements": len(diffs)}, nofail=True)
